@@ -141,6 +141,82 @@ def _judge_msg(rec, opts):
 _MOPTS: dict = {}
 
 
+def _roundtrip(env, src, data, what):
+    """str() of a parsed template reparses and renders alike; [] when the source does not parse or render."""
+    from liquid2.exceptions import LiquidError
+    try:
+        t = env.from_string(src)
+        base = t.render(**data)
+    except LiquidError:
+        return []
+    except Exception:  # noqa: BLE001
+        return []
+    try:
+        s1 = str(t)
+    except Exception as e:  # noqa: BLE001
+        return [(f"str-raises:{type(e).__name__}:{what}", {"src": src})]
+    try:
+        got = env.from_string(s1).render(**data)
+    except LiquidError as e:
+        return [(f"str-does-not-reparse:{type(e).__name__}:{what}", {"src": src, "str": s1, "error": str(e)[:200]})]
+    except Exception as e:  # noqa: BLE001
+        return [(f"str-reparse-raises:{type(e).__name__}:{what}", {"src": src, "str": s1})]
+    if got != base:
+        return [(f"reparsed-behaves-differently:{what}", {"src": src, "str": s1, "orig": base, "reparsed": got})]
+    return []
+
+
+def judge_lit(rec, opts):
+    """Literals of LiquidLit (C20's generator) through str() and back: the reparsed literal denotes the same value."""
+    from liquid2 import DictLoader, Environment
+    from .c20 import s_of
+    kind = rec["kind"]
+    if kind == "str":
+        value, src, site = s_of(rec["value"]), s_of(rec["src"]), rec["site"]
+        if site.endswith("-name") and value == "":
+            return []
+        env = Environment(loader=DictLoader({value: "HIT", "p": "<{{ v }}>"} if site.endswith("-name") else {"p": "<{{ v }}>"}))
+        forms = "+".join(sorted(set(rec["forms"]))) or "empty"
+        return _roundtrip(env, src, {"x": value, "h": {value: "HIT"}, "xs": [value], "y": "!"}, f"literal:{site}:{forms}")
+    if kind == "num":
+        env = opts.get("_env")
+        if env is None:
+            env = opts["_env"] = Environment(loader=DictLoader({"p": "{{ v }}"}))
+        text = rec["text"]
+        shape = ("int" if rec["isint"] else "float") + (":exp" if "e" in text.lower() else "") + (":big" if len(rec["digits"].lstrip("0")) > 15 else "")
+        out = []
+        for site, src in (("output", "{{ %s }}" % text), ("filter-arg", "{{ 1 | plus: %s }}" % text), ("assign-json", "{%% assign n = %s %%}{{ n | json }}" % text),
+                          ("compare", "{%% if 1 < %s %%}HIT{%% endif %%}" % text), ("range", "{{ (1..%s) | first }}" % text),
+                          ("ternary-else", "{{ 1 if false else %s }}" % text), ("array", "{{ 1, %s | last }}" % text)):
+            out += _roundtrip(env, src, {}, f"number:{site}:{shape}")
+        return out
+    return []
+
+
+RT_DATA = {"x": {"y": [1, 2], "a b": "xAB", "true": "xT", "first": "xF", "x": {"y": "xxy"}}, "y": [3, 4], "true": "T!", "a b": "AB!", "": "E!",
+           "first": [5], "not": "N!", "or": "O!", "1": "one!", "x.y": "dotted!", "a": "A!", "b": "B!"}
+RT_WRAPPERS = [("out", "{{ ", " }}"), ("if", "{% if ", " %}T{% else %}F{% endif %}"), ("root", "{{ [", "] }}"),
+               ("for", "{% for i in ", " %}({{ i }}){% endfor %}"), ("liquid", "{% liquid echo ", " %}"), ("tstr", "{{ \"", "\" }}"),
+               ("arg", "{{ y | join: ", " }}")]
+
+
+def judge_src(rec, opts):
+    """Enumerated expression text (MC_Strings): whatever parses must survive str() and a reparse."""
+    env = opts.get("_env")
+    if env is None:
+        from liquid2 import DictLoader, Environment
+        env = opts["_env"] = Environment(loader=DictLoader({}))
+    return _roundtrip(env, rec["src"], RT_DATA, "source:" + rec["focus"])
+
+
+def _judge_src(rec, opts):
+    return judge_src(rec, _MOPTS)
+
+
+def _judge_lit(rec, opts):
+    return judge_lit(rec, _MOPTS)
+
+
 def check(tier: str) -> int:
     chk = Check("C12", tier)
     chk.assumptions += ["behaviour is compared on the data sets of each focus (chosen so that every branch is taken)",
@@ -171,6 +247,28 @@ def check(tier: str) -> int:
             gen.replay_file(chk, r.workdir / "out.ndjson", "harness.c12", "_judge_msg")
         finally:
             r.cleanup()
+    # expression text (MC_Strings): every sequence of symbols inside every wrapper
+    from . import tracecheck as tc
+    for wname, pre, post in RT_WRAPPERS:
+        r = tc.enumerate_sources(chk, f"rt-{wname}", "expr-rt", (5 if wname in ("out", "if") else 4) if tier == "thorough" else (4 if wname in ("out", "if", "root") else 3), pre, post)
+        if r is None:
+            continue
+        try:
+            gen.replay_file(chk, r.workdir / "out.ndjson", "harness.c12", "_judge_src")
+        finally:
+            r.cleanup()
+    # literals (LiquidLit, the generator of C20): every spelling of every string and number at every site
+    for mode, maxlen in (("str", 2 if tier == "quick" else 3), ("num", 0)):
+        r = tlc.run("LiquidLit", tlc.cfg_text(constants={"Mode": f'"{mode}"', "MaxLen": str(maxlen), "Focus": f'"roundtrip-lit-{mode}"'}, invariants=["Export"]),
+                    tag=f"roundtrip-lit-{mode}", timeout=6000)
+        try:
+            if r.error:
+                chk.machinery_error = r.error
+                continue
+            chk.tlc(r, f"literals through str() ({mode})")
+            gen.replay_file(chk, r.workdir / "out.ndjson", "harness.c12", "_judge_lit")
+        finally:
+            r.cleanup()
     return chk.finish()
 
 
@@ -178,6 +276,13 @@ def replay_file(path: str) -> int:
     import json
     d = json.load(open(path))
     rec = d["record"]["record"]
+    if "kind" in rec or "src" in rec and "templates" not in rec and "items" not in rec:
+        res = judge_lit(rec, {}) if "kind" in rec else judge_src(rec, {})
+        for sig, det in res:
+            print("FAILS:", sig, json.dumps(det, default=str)[:1500])
+        if res:
+            print(f"VIOLATION property=C12 replay={path}")
+        return 1 if res else 0
     if "items" in rec:
         res = judge_msg(rec, {})
         print(rec["src"])
